@@ -155,6 +155,8 @@ func c16Docs(thorough bool) []*vfJ {
 		vfJA(s(`1`), s(`"two"`), vfJO(`"k"`, s(`true`))),
 		vfJO(`"a"`, vfJA(vfJO(`"id"`, s(`1`), `"v"`, s(`"p"`)), vfJO(`"id"`, s(`2`), `"v"`, s(`"q"`))), `"z"`, s(`null`)),
 		vfJO(`"f"`, s(`1.0`), `"e"`, s(`1e3`), `"s"`, s(`"---"`), `"h"`, s(`"[TestA - 2]"`)),
+		// sibling keys that are textual prefixes of each other, in both orders (paths are compared segment-wise, not as strings)
+		vfJO(`"created"`, s(`"2024-01-01"`), `"createdBy"`, s(`"u1"`), `"k10"`, s(`10`), `"k1"`, s(`1`), `"o"`, vfJO(`"id"`, s(`3`), `"id_token"`, s(`"tok"`))),
 	}
 	if thorough {
 		docs = append(docs,
